@@ -52,11 +52,12 @@ _ctxmod.datetime = _fake  # type: ignore[attr-defined]
 SOURCES = {
     "t0": "{% increment c %}{% increment c %}{% decrement d %}{% cycle 'a', 'b' %}{% cycle 'a', 'b' %}{% cycle 'a', 'b' %}{{ c }}{{ d }}<{{ x }}>",
     "t1": "{% for i in a limit: 1 %}{{ i }}{% endfor %}{% for i in a offset: continue %}{{ i }}{% endfor %}{{ z }}{% capture q %}{{ x }}{% endcapture %}{% assign z = x %}{{ q }}{{ z }}",
-    "t2": "{% call m %}{% macro m %}M{{ x }}{% endmacro %}{% call m %}{% include 'inc' %}{{ y }}",
+    "t2": "{% call m %}{% macro m %}M{{ x }}{% endmacro %}{% call m %}{% include 'inc' %}{{ y }}{% for i in a %}{% render 'rp', v: i %}{% endfor %}",
     "t3": "{% extends 'base' %}{% block b %}[{{ x }}{{ block.super }}]{% endblock %}",
     "t4": "{{ 'now' | date: '%d' }}|{{ 'today' | date: '%d' }}|{{ now | date: '%d' }}|{{ today | date: '%d' }}",
     "base": "B{% block b %}p{% endblock %}{% block r %}{{ x }}{% endblock %}E",
     "inc": "{% assign y = x %}{% increment c %}I",
+    "rp": "(r{{ v }})",
 }
 NAMES = ["t0", "t1", "t2", "t3", "t4"]
 
@@ -110,6 +111,13 @@ def _disturb(objs, kind: int, name: str, x: int) -> None:
         elif kind == 4:
             env.from_string("{% increment c %}{% cycle 'a', 'b' %}{% macro m %}X{% endmacro %}{% assign z = 9 %}").render()
             env.get_template(name)
+        elif kind == 6:
+            # the loader's contents change (partials and parent edited): later renders must see the new text
+            env.loader.templates["rp"] = "(R2{{ v }})"
+            env.loader.templates["inc"] = "{% assign y = 5 %}I2"
+            env.loader.templates["base"] = "B2{% block b %}q{% endblock %}E2"
+        elif kind == 7:
+            env.loader.templates.pop("rp", None)
         else:
             other = Environment()
             other.filters["date"] = lambda *a, **k: "hijacked"
@@ -125,24 +133,36 @@ def _history_ok(steps: list[tuple[int, int, int]], final: tuple[int, bool, int],
     _NOW[0] = 0
     shared = untraced(lambda: _build(caching))
     for (kind, ti, x), dt in zip(steps, deltas):
+        if caching and kind in (6, 7):
+            kind = 0  # a caching loader without freshness information legitimately keeps serving the old text (C14)
         _disturb(shared, kind, NAMES[ti], x)
         _NOW[0] += dt
     ti, is_async, x = final
     got = _observe(shared, NAMES[ti], is_async, x)
-    fresh = untraced(lambda: _build(caching))
+    current = dict(shared[0].loader.templates)
+
+    def build_fresh():  # fresh objects over the loader contents as they are *now*
+        loader = (CachingDictLoader if caching else DictLoader)(current)
+        env = Environment(loader=loader)
+        tpls = {}
+        for nm in NAMES:
+            tpls[nm] = env.from_string(SOURCES[nm], name=nm)
+        return env, tpls
+
+    fresh = untraced(build_fresh)
     want = _observe(fresh, NAMES[ti], is_async, x)
     return got == want
 
 
-N_KIND = 6
+N_KIND = 8
 
 
 @cond(
     pre=["0 <= k1 < N_KIND", "0 <= t1 < 5", "0 <= x <= 2", "0 <= d1 <= 1"],
     timeout=300,
-    shard={"tf": [0, 1, 2, 3, 4], "is_async": [False, True]},
+    shard={"tf": [0, 1, 2, 3, 4], "is_async": [False, True], "caching": [False, True]},
     covers="one earlier operation (render, render_async, analyze, a render that fails at a data access, from_string/get_template on the same Environment, configuring another Environment) on any template, then a render of any template after the clock advanced: output equals the same render on freshly built objects at the same instant",
-    bounds="5 templates using counters, cycles, offset: continue, capture, assign, macros, include, extends/block.super, now/today/'now' | date; 6 operation kinds; data x in 0..2 (earlier step uses 2 - x); clock delta 0..1 days; caching and non-caching loader",
+    bounds="5 templates using counters, cycles, offset: continue, capture, assign, macros, include, extends/block.super, now/today/'now' | date; 8 operation kinds (incl. editing / deleting partials and parents in the loader between renders); data x in 0..2 (earlier step uses 2 - x); clock delta 0..1 days; caching and non-caching loader",
     stubs=STUBS,
     grid=lambda: [(tf, a, k, t, 2, 1, c) for tf in range(5) for a in (False, True) for k in range(N_KIND) for t in (0, 4) for c in (False, True)],
 )
@@ -165,6 +185,20 @@ def s_hist2(tf: int, is_async: bool, t1: int, k1: int, k2: int, t2: int, x: int,
     x = concrete_int(x, 0, 2)
     steps = [(concrete_int(k1, 0, N_KIND - 1), t1, x), (concrete_int(k2, 0, N_KIND - 1), concrete_int(t2, 0, 4), 2 - x)]
     return _history_ok(steps, (tf, is_async, x), [concrete_int(d1, 0, 1), concrete_int(d2, 0, 1)], False)
+
+
+@cond(
+    pre=["0 <= x <= 2", "6 <= edit <= 7"],
+    timeout=200,
+    shard={"tf": [0, 1, 2, 3, 4]},
+    covers="render T, then the loader's contents change (partials/parents edited or deleted), then render T again: the second render equals a render on fresh objects over the current loader contents (nothing loaded for the first render is remembered by the Template or its nodes)",
+    bounds="5 templates x sync/async for either render x data 0..2 x {edit, delete}; non-caching loader",
+    stubs=STUBS,
+    grid=lambda: [(tf, a1, a2, x, e) for tf in range(5) for a1 in (False, True) for a2 in (False, True) for x in (0, 2) for e in (6, 7)],
+)
+def s_edit_between(tf: int, a1: bool, a2: bool, x: int, edit: int) -> bool:
+    x = concrete_int(x, 0, 2)
+    return _history_ok([(1 if a1 else 0, tf, x), (concrete_int(edit, 6, 7), tf, x)], (tf, a2, x), [0, 0], False)
 
 
 @cond(
